@@ -29,7 +29,8 @@ EXPLANATION = (
     "and on JSON texts for the parser). Oracle independent of model and struct tags: hand-written in-toto field names + hand-written "
     "OLPC canonicaliser; json.Valid + decode + LoadMetadata of the dumped envelope; re-serialisations (shuffled members, white space, "
     "escapes) must give the same bytes; pairs differing in one field must differ; repository fixtures must load, reproduce the "
-    "canonical form of their raw 'signed' part and verify under their stored signatures."
+    "canonical form of their raw 'signed' part and verify under their stored signatures. Additional failing-input search: Go native "
+    "coverage-guided fuzzing of document text -> LoadMetadata -> signable bytes / DSSE payload against the same oracle (harness/c11/fuzz_test.go)."
 )
 
 
@@ -125,6 +126,20 @@ def correspondence(ctx):
         "through cjson.EncodeCanonical and through SetPayload of a link carrying them, and JSON texts (half of them damaged) through "
         "json.Valid+Decoder(UseNumber), against the extracted model. non-trivial = every case (no case is a constant input); distinct = distinct input JSON / input line")
     _value_level(ctx, binp, 20000 if ctx.tier == 'quick' else 600000, corr)
+    # coverage-guided differential fuzzing (failing-input search only, never the proof): the text of a link / layout document
+    # -> LoadMetadata -> GetSignableRepresentation against the hand-written reference canonicaliser applied to the document as
+    # written, plus the DSSE payload checks. The fuzzer sees the coverage of in_toto and cjson (a custom MarshalJSON, an
+    # omitempty, a normalising loader, a cache is a new branch it tries to reach).
+    secs = 12 if ctx.tier == 'quick' else 180
+    f = ctx.go_fuzz('c11', 'FuzzSignable', secs)
+    corr.extra['fuzz_seconds'] = secs
+    if f:
+        corr.violations.append({'klass': 'fuzz-signable', 'case': {'id': 'fuzz', 'klass': 'fuzz-signable',
+                                                                  'input': {'entry': 'fuzz', 'target': 'FuzzSignable', 'go_fuzz_corpus_file': f['corpus_file'],
+                                                                            'message': f['message'][:3000]}},
+                                'impl': f['message'], 'expected': 'the reference canonical form of the document as written / a valid DSSE payload of the same fields',
+                                'what': 'coverage-guided differential fuzzing found a metadata document on which the signed bytes differ from the '
+                                        'reference canonicalisation of the document (or the DSSE payload is not a valid JSON document of the same fields)'})
     return corr
 
 
@@ -150,6 +165,13 @@ def replay(ctx, case):
     c = case.get('case', case)
     json.dump(c, open(p, 'w'))
     inp = c.get('input', {})
+    if isinstance(inp, dict) and inp.get('entry') == 'fuzz':
+        print('failing input of the fuzz target %s (Go corpus file format; empty when a seed document already fails - the document is in the message):\n%s'
+              % (inp.get('target'), inp.get('go_fuzz_corpus_file')))
+        print('re-run: save it as harness/c11/testdata/fuzz/%s/replay and run `go test -tags verif -run %s/replay ./c11` in /verif/harness'
+              % (inp.get('target'), inp.get('target')))
+        print(case.get('impl') or inp.get('message', ''))
+        return
     if inp.get('part') == 'value':
         line = inp.get('line', '')
         print('value-level input line:', line[:2000])
